@@ -211,9 +211,11 @@ func (conn *Conn) send(call *Call) {
 	seq := conn.seq
 	var isStreaming bool
 	var closeStreaming bool
+	var openStreaming bool
 	if call.upgrade.Stream > 0 {
 		switch call.upgrade.Stream {
 		case openStream:
+			openStreaming = true
 			call.stream.seq = seq
 			conn.streams[seq] = call
 		case streaming:
@@ -245,7 +247,7 @@ func (conn *Conn) send(call *Call) {
 		conn.mutex.Lock()
 		registered := conn.pending[seq] == call
 		delete(conn.pending, seq)
-		if call.upgrade.Stream == openStream {
+		if openStreaming {
 			delete(conn.streams, seq)
 		}
 		conn.mutex.Unlock()
